@@ -311,7 +311,8 @@ fn high_bits_to_u64(v: &BigUint) -> u64 {
                 }
 
                 ret_bits += bits_want;
-                bits -= bits_want;
+                // the rest of this digit was just folded into the sticky bit: continue at the next digit boundary
+                bits -= digit_bits;
             }
 
             ret
